@@ -2,8 +2,8 @@
   Lemmas/SkipBRInst: the buffered reader of C04 (Model/Reader, lemmas Reader*.lean) satisfies the
   abstract reader contract `RdC` of Lemmas/SkipBR.lean:
 
-    * `RdOK r`  :=  C04's invariant `Inv r`  ∧  `ri + |remaining r| ≤ 2^60`   (sizes in range:
-      every request `n ≤ bigReq = 2^62` then satisfies C04's `Small`)
+    * `RdOK r`  :=  C04's invariant `Inv r`  ∧  `ri + |remaining r| ≤ 2^40`   (sizes in range:
+      every request `n ≤ bigReq = 2^42` then satisfies C04's `InDomain`, hence `Small`)
     * over ANY source (`live := False`): every operation either returns exactly the requested bytes
       of `remaining` or fails with a non-nil error, consuming nothing   ⇒  soundness of the skippers
     * over a LIVE source (`Rd.Live`, C04: the stream is fully buffered/handed over, or no error has
@@ -13,13 +13,16 @@
 -/
 import Verif.Lemmas.SkipBR
 import Verif.Lemmas.ReaderSteady
+import Verif.Lemmas.ReaderAlloc
 namespace Verif
 
-/-- 2^60 -/
-def sizeBound : Nat := 1152921504606846976
+/-- 2^40 (was 2^60): sizes for which allocation can succeed — mcache has 46 size classes, a capacity
+    request above 2^45 panics in the real code (C04 audit: `Next(1<<46)` → `PANIC index`); with
+    `ri + |remaining| ≤ 2^40` and requests `≤ 2^42` every request is in C04's `Rd.InDomain` (≤ 2^43) -/
+def sizeBound : Nat := 1099511627776
 
-/-- 2^62: the largest request the instance covers -/
-def bigReq : Nat := 4611686018427387904
+/-- 2^42 (was 2^62): the largest request the instance covers -/
+def bigReq : Nat := 4398046511104
 
 /-- reader states the skippers are proved on: C04's invariant, and sizes in range -/
 def RdOK (r : Rd) : Prop := Inv r ∧ r.ri + r.remaining.length ≤ sizeBound
@@ -30,6 +33,11 @@ def RdP (live : Prop) (r : Rd) : Prop := RdOK r ∧ (live → r.Live)
 theorem RdOK.small {r : Rd} (h : RdOK r) (k : Nat) (hk : k ≤ bigReq) : r.Small k := by
   have := h.2
   unfold Rd.Small; unfold bigReq at hk; unfold sizeBound at this; omega
+
+/-- every request the instance covers is in the domain where the model mirrors the code (C04) -/
+theorem RdOK.inDomain {r : Rd} (h : RdOK r) (k : Nat) (hk : k ≤ bigReq) : r.InDomain k := by
+  have := h.2
+  unfold Rd.InDomain; unfold bigReq at hk; unfold sizeBound at this; omega
 
 theorem advance_remaining (r : Rd) (k : Nat) (hk : k ≤ r.buf.length - r.ri) :
     ({ r with ri := r.ri + k } : Rd).remaining = r.remaining.drop k := by
